@@ -7,6 +7,7 @@ use bevy_cobweb::prelude::*;
 use std::sync::{Arc, Mutex};
 
 mod fifo;
+mod revoke_dup;
 
 fn main()
 {
@@ -15,6 +16,7 @@ fn main()
     let res = match args[0].as_str()
     {
         "fifo" => fifo::run(&args[1..]),
+        "revoke_dup" => revoke_dup::run(&args[1..]),
         _ => { eprintln!("unknown scenario {}", args[0]); std::process::exit(3); }
     };
     println!("{}", res.json);
